@@ -458,7 +458,9 @@ pub fn gen_op(m: &Model, p: &Profile, seed: &OpSeed) -> Option<Op> {
             for _ in 0..n {
                 let ch = chan_pick(m, p, &mut s, true);
                 let member = m.chans.get(&ch).map_or(false, |c| c.members.contains_key(&nick));
-                if !chans.contains(&ch) && !member {
+                // a channel the user is already on may appear inside a longer list
+                let allow_member = n > 1 && s.chance(35);
+                if !chans.contains(&ch) && (!member || allow_member) {
                     chans.push(ch);
                 }
             }
